@@ -57,13 +57,12 @@ Proof. destruct n; cbn [negate_if]; [apply lift1_typed|auto]. Qed.
 Lemma like_op_typed f n a p : has_ty a TStr = true -> has_ty p TStr = true -> has_ty (like_op f n a p) TBool = true.
 Proof. destruct a, p; cbn; try discriminate; reflexivity. Qed.
 
-Lemma arith_op_typed r32 op a b ta tb t : is_int r32 = true ->
-  has_ty a ta = true -> has_ty b tb = true -> arith_ty r32 ta tb = Some t ->
+Lemma arith_op_typed sa op a b ta tb t :
+  has_ty a ta = true -> has_ty b tb = true -> arith_ty sa ta tb = Some t ->
   has_ty (arith_op op a b) t = true.
 Proof.
-  intros Hr. unfold arith_ty.
-  destruct r32; try discriminate Hr;
-    destruct a, b, ta, tb; cbn; try discriminate; intros _ _ H; inversion H; subst; reflexivity.
+  unfold arith_ty, coerce_numeric.
+  destruct sa; destruct a, b, ta, tb; cbn; try discriminate; intros _ _ H; inversion H; subst; reflexivity.
 Qed.
 
 Lemma neg_op_typed a t : has_ty a t = true -> is_num t = true -> has_ty (neg_op a) t = true.
@@ -71,14 +70,13 @@ Proof. destruct a, t; cbn; try discriminate; reflexivity. Qed.
 
 (* ---------- expressions ---------- *)
 Section ExprSound.
-  Variable r32 : ty.
-  Hypothesis Hr32 : is_int r32 = true.
+  Variable sa : bool.
   Variable S : sem.
   Variable env : list ty.
   Variable r : row.
   Hypothesis Hrow : row_has_types r env = true.
 
-  Notation tyof := (tyof r32 env).
+  Notation tyof := (tyof sa env).
   Notation ev := (eval S r).
 
   Ltac dt H x := destruct (tyof x) as [[]|] eqn:?; try discriminate H.
@@ -285,12 +283,13 @@ Proof.
       { apply forallb_forall. intros x Hx. rewrite Forall_forall in NN. destruct (NN x Hx) as [Hx' Nx].
         destruct x, t; cbn in *; try discriminate; congruence. }
       rewrite AllInt. reflexivity.
-    + destruct (ty_eqb t TF64) eqn:Fq; inversion A; subst. destruct t; try discriminate.
+    + destruct (is_flt t) eqn:Fq; inversion A; subst.
       assert (NotInt : forallb (fun v => match v with VInt _ => true | _ => false end) nn = false).
-      { unfold nn. inversion NN as [|? ? [Hx Nx] _]; subst. destruct v; cbn in *; try discriminate; congruence. }
+      { unfold nn. inversion NN as [|? ? [Hx Nx] _]; subst. destruct v, t; cbn in *; try discriminate; congruence. }
       rewrite NotInt.
       destruct (fold_q_some nn 0%Q) as [q ->]; [|reflexivity].
-      eapply Forall_impl; [|exact NN]. intros x [Hx Nx]. apply (num_to_q TF64); [reflexivity|exact Hx|exact Nx].
+      eapply Forall_impl; [|exact NN]. intros x [Hx Nx].
+      apply (num_to_q t); [unfold is_num; rewrite Fq; apply orb_true_r|exact Hx|exact Nx].
   - (* AVG *)
     destruct (is_num t) eqn:N; inversion A; subst.
     unfold avg_values. destruct (non_null args) as [|v vs] eqn:E; [reflexivity|].
@@ -304,13 +303,12 @@ Qed.
 
 (* ---------- queries ---------- *)
 Section QuerySound.
-  Variable r32 : ty.
-  Hypothesis Hr32 : is_int r32 = true.
+  Variable sa : bool.
   Variable dbs : list (list ty).
   Variable db : list rel.
   Hypothesis Hdb : db_conforms db dbs.
 
-  Notation schema := (schema_g r32 dbs).
+  Notation schema := (schema_g sa dbs).
   Notation qev := (qeval sql_qsem db).
 
   Lemma schema_width : forall q env, schema q = Some env -> length env = width q.
@@ -319,13 +317,13 @@ Section QuerySound.
     - destruct (nth_error dbs n) as [e|]; [|discriminate]. destruct (Nat.eqb (length e) w) eqn:E; inversion H; subst.
       apply Nat.eqb_eq; exact E.
     - discriminate.
-    - destruct (schema q) as [e|]; [|discriminate]. destruct (tyof r32 e p) as [[]|]; inversion H; subst. apply IHq; reflexivity.
+    - destruct (schema q) as [e|]; [|discriminate]. destruct (tyof sa e p) as [[]|]; inversion H; subst. apply IHq; reflexivity.
     - destruct (schema q) as [e|]; [|discriminate]. eapply map_opt_length; exact H.
     - destruct (schema q1) as [el|]; [|discriminate]. destruct (schema q2) as [er|]; [|discriminate].
-      destruct (tyof r32 (el ++ er) on) as [[]|]; try discriminate. inversion H; subst.
+      destruct (tyof sa (el ++ er) on) as [[]|]; try discriminate. inversion H; subst.
       destruct jt; try (rewrite app_length, (IHq1 _ eq_refl), (IHq2 _ eq_refl); reflexivity); apply IHq1; reflexivity.
     - destruct (schema q) as [e|]; [|discriminate].
-      destruct (map_opt (tyof r32 e) keys) as [kt|] eqn:K; [|discriminate].
+      destruct (map_opt (tyof sa e) keys) as [kt|] eqn:K; [|discriminate].
       destruct (map_opt _ aggs) as [at_|] eqn:A; [|discriminate]. inversion H; subst.
       rewrite app_length, (map_opt_length _ _ _ K), (map_opt_length _ _ _ A). reflexivity.
     - apply IHq; exact H.
@@ -344,7 +342,7 @@ Section QuerySound.
       eapply Hdb; eassumption.
     - discriminate.
     - (* filter *)
-      destruct (schema q) as [e|]; [|discriminate]. destruct (tyof r32 e p) as [[]|]; inversion H; subst.
+      destruct (schema q) as [e|]; [|discriminate]. destruct (tyof sa e p) as [[]|]; inversion H; subst.
       apply filter_In in Hin. apply IHq; tauto.
     - (* project *)
       destruct (schema q) as [e|] eqn:E; [|discriminate].
@@ -353,7 +351,7 @@ Section QuerySound.
       eapply tyof_sound; eauto.
     - (* join *)
       destruct (schema q1) as [el|] eqn:E1; [|discriminate]. destruct (schema q2) as [er|] eqn:E2; [|discriminate].
-      destruct (tyof r32 (el ++ er) on) as [[]|]; try discriminate. inversion H; subst. clear H.
+      destruct (tyof sa (el ++ er) on) as [[]|]; try discriminate. inversion H; subst. clear H.
       pose proof (schema_width _ _ E1) as W1. pose proof (schema_width _ _ E2) as W2.
       assert (PL : forall a, In a (qev q1) -> row_has_types a el = true) by (intros; eapply IHq1; eauto).
       assert (PR : forall b, In b (qev q2) -> row_has_types b er = true) by (intros; eapply IHq2; eauto).
@@ -385,14 +383,14 @@ Section QuerySound.
         destruct Hx as (b & <- & Hb). apply Pair; auto.
     - (* aggregate *)
       destruct (schema q) as [e|] eqn:E; [|discriminate].
-      destruct (map_opt (tyof r32 e) keys) as [kt|] eqn:K; [|discriminate].
+      destruct (map_opt (tyof sa e) keys) as [kt|] eqn:K; [|discriminate].
       destruct (map_opt _ aggs) as [at_|] eqn:A; [|discriminate]. inversion H; subst. clear H.
       assert (PQ : forall a, In a (qev q) -> row_has_types a e = true) by (intros; eapply IHq; eauto).
       assert (Aggs : forall members, (forall m, In m members -> In m (qev q)) ->
                 row_has_types (map (fun fa => agg_apply (fst fa)
                    (map (fun r => eval (q_esem sql_qsem) r (snd fa)) members) (length members)) aggs) at_ = true).
       { intros members Hm. eapply map_opt_row; [exact A|]. intros [f x] t _ Hx. cbn [fst snd] in *.
-        destruct (tyof r32 e x) as [tx|] eqn:Ex; [|discriminate].
+        destruct (tyof sa e x) as [tx|] eqn:Ex; [|discriminate].
         eapply agg_apply_typed; [|exact Hx].
         apply Forall_forall. intros v Hv. apply in_map_iff in Hv. destruct Hv as (m & <- & Hm').
         eapply tyof_sound; eauto. }
@@ -432,21 +430,41 @@ End QuerySound.
 Theorem rows_conform : forall dbs db q env,
   db_conforms db dbs -> schema_of dbs q = Some env ->
   forall r, In r (qeval sql_qsem db q) -> row_has_types r env = true.
-Proof. intros dbs db q env Hdb H. apply (rows_conform_g TI64 eq_refl dbs db Hdb q env H). Qed.
-
-(* ... and to the returned (kernel) typing as well, which differs only inside the integer class *)
-Theorem rows_conform_returned : forall dbs db q env,
-  db_conforms db dbs -> returned_schema_of dbs q = Some env ->
-  forall r, In r (qeval sql_qsem db q) -> row_has_types r env = true.
-Proof. intros dbs db q env Hdb H. apply (rows_conform_g TI32 eq_refl dbs db Hdb q env H). Qed.
+Proof. intros dbs db q env Hdb H. apply (rows_conform_g true dbs db Hdb q env H). Qed.
 
 Theorem schema_width_reported : forall dbs q env, schema_of dbs q = Some env -> length env = width q.
 Proof. intros dbs q env. apply schema_width. Qed.
 
-(* the class is not empty: Int32 + Int32 is reported Int64, returned Int32 *)
-Example i32_arith_witness :
+(* regression witness of the class i32-arith (closed by the fix: commit 4f06458): Int32 + Int32 is now planned
+   Int32 — what the kernel returns — and was planned Int64 before *)
+Example i32_arith_regression :
   let q := QProject (QTable 0 1) [EArith AAdd (ECol 0) (ECol 0)] in
-  schema_of [[TI32]] q = Some [TI64] /\ returned_schema_of [[TI32]] q = Some [TI32] /\ known_i32_arith [[TI32]] q = true.
+  schema_of [[TI32]] q = Some [TI32] /\ schema_before_4f06458 [[TI32]] q = Some [TI64].
+Proof. split; reflexivity. Qed.
+
+(* coerce_numeric_types on every pair of the modelled numeric types, as the planner computes it now *)
+Example coerce_table :
+  map (fun a => map (coerce_numeric true a) [TI8; TI16; TI32; TI64; TF32; TF64]) [TI8; TI16; TI32; TI64; TF32; TF64]
+  = [[TI8;  TI32; TI64; TI64; TF64; TF64];
+     [TI32; TI16; TI64; TI64; TF64; TF64];
+     [TI64; TI64; TI32; TI64; TF64; TF64];
+     [TI64; TI64; TI64; TI64; TF64; TF64];
+     [TF64; TF64; TF64; TF64; TF32; TF64];
+     [TF64; TF64; TF64; TF64; TF64; TF64]].
+Proof. reflexivity. Qed.
+
+(* the class union-all-mixed-types is inhabited, and only by UNION ALL of differently typed sides *)
+Example union_mixed_witness :
+  let q := QSetOp SUnion true (QProject (QTable 0 2) [ECol 1]) (QProject (QTable 0 2) [ECol 0]) in
+  schema_of [[TI64; TI32]] q = Some [TI32] /\ known_union_mixed [[TI64; TI32]] q = true
+  /\ known_union_mixed [[TI64; TI32]] (QSetOp SUnion false (QProject (QTable 0 2) [ECol 1]) (QProject (QTable 0 2) [ECol 0])) = false.
+Proof. repeat split. Qed.
+
+(* the class case-float64-widening: CASE WHEN .. THEN <Int64> ELSE <Float64> is reported Int64 and folds to Float64 *)
+Example case_widen_witness :
+  let e := ECase [(ECmp CGt (ECol 0) (ELit (VInt 0)), ECol 0)] (Some (ELit (VDbl (3 # 2)))) in
+  case_fold [TI64; TF64] = Some TF64 /\ known_case_widen [[TI64]] (QProject (QTable 0 1) [e]) = true
+  /\ known_case_widen [[TI64]] (QProject (QTable 0 1) [ECase [(ECmp CGt (ECol 0) (ELit (VInt 0)), ELit (VDbl (3 # 2)))] (Some (ECol 0))]) = false.
 Proof. repeat split. Qed.
 
 (* satisfiable hypotheses: a non-trivial well-typed query over a conforming database *)
